@@ -297,7 +297,7 @@ fn supervisor(id: &str, tier_s: &str) -> i32 {
         match tier {
             Tier::Quick => def.watchdog_quick,
             Tier::Thorough => def.watchdog_thorough,
-        } + 120,
+        } + 600,
     );
     let mut child = std::process::Command::new(&exe)
         .args(["work", id, tier.name(), &seed.to_string(), out.to_str().unwrap()])
